@@ -3,7 +3,8 @@
 From Coq Require Import ZArith QArith List Bool Permutation.
 From PV Require Import Base.CasesLib C03.ExecModel C03.ExecProofs C03.ExecReplay C03.ExecRefute
   C03.ProjectModel C03.ProjectProofs C03.ProjectReplay C03.ProjectNFold
-  C03.DensityModel C03.DensityProofs C03.DensityReplay.
+  C03.DensityModel C03.DensityProofs C03.DensityReplay C03.DensityNFold
+  C03.PassiveModel C03.PassiveRefute C03.PassiveReplay.
 Import ListNotations.
 Open Scope Z_scope.
 
@@ -258,6 +259,39 @@ Theorem C03_density_two_step : forall (A : Type) (tr : A -> Q) (b : dbranch A) L
 Proof. exact dtwo_step_child. Qed.
 Print Assumptions C03_density_two_step.
 
+(* mixed states, outcome sets included: from any reachable branch, measuring L1 and then L2
+   gives exactly the branches of the joint measurement (same outcome, block, register; equal
+   weight and scale) ... *)
+Theorem C03_density_two_step_from_branch : forall (A : Type) (tr : A -> Q) (b : dbranch A) L1 L2,
+  dgood A tr b -> incl L1 (db_reg A b) ->
+  incl L2 (filter (fun m => negb (memb m L1)) (db_reg A b)) ->
+  dequiv A (dmeasure A tr L2 (dmeasure_branch A tr L1 b)) (dmeasure_branch A tr (L1 ++ L2) b).
+Proof. exact dtwo_step_from_branch. Qed.
+Print Assumptions C03_density_two_step_from_branch.
+
+(* ... and the k-fold chain rule for density matrices, as for pure states: any matrix indexed
+   by vectors of length d with positive listed diagonal entries (trace not necessarily 1), any
+   non-empty list of pairwise disjoint mode lists below d in any order *)
+Theorem C03_density_nfold_sequential_eq_joint : forall (A : Type) (tr : A -> Q) d (rho : dstate A) Ls,
+  dwf A d rho -> dpositive A tr rho -> Ls <> [] -> disjoint_in (seq 0 d) Ls ->
+  dequiv A (dmeasure_seq A tr Ls (dinitial A d rho)) (dmeasure_seq A tr [concat Ls] (dinitial A d rho)).
+Proof. exact dnfold_sequential_eq_joint. Qed.
+Print Assumptions C03_density_nfold_sequential_eq_joint.
+
+Theorem C03_density_nfold_from_branch : forall (A : Type) (tr : A -> Q) n Ls (b : dbranch A),
+  (length Ls <= n)%nat -> Ls <> [] -> dgood A tr b -> disjoint_in (db_reg A b) Ls ->
+  dequiv A (dmeasure_seq A tr Ls [b]) (dmeasure_seq A tr [concat Ls] [b]).
+Proof. exact dnfold_from_branch. Qed.
+Print Assumptions C03_density_nfold_from_branch.
+
+Example C03_nonvacuous_density_nfold :
+  let rho : qdstate := [(([1;0;1], [1;0;1])%nat, (1#2, 0)); (([0;1;1], [0;1;1])%nat, (1#4, 0));
+                        (([1;0;1], [0;1;1])%nat, (1#8, 1#8)); (([0;1;1], [1;0;1])%nat, (1#8, -1#8))]%Q in
+  map (fun b => (db_out Qi b, Qred (db_freq Qi b))) (run_dens 3 rho [[2%nat]; [0%nat]; [1%nat]])
+  = map (fun b => (db_out Qi b, Qred (db_freq Qi b))) (run_dens 3 rho [[2%nat; 0%nat; 1%nat]])
+  /\ length (run_dens 3 rho [[2%nat]; [0%nat]; [1%nat]]) = 2%nat.
+Proof. vm_compute. split; reflexivity. Qed.
+
 (* non-vacuity: rho = 1/2 |1,0><1,0| + 1/4 |0,1><0,1| (trace 3/4): measuring mode 0 gives the
    weights 1/2 and 1/4, each branch matrix rescaled to trace 1 *)
 Example C03_nonvacuous_density :
@@ -277,6 +311,43 @@ Proof.
   - simpl. repeat split; intros x [<-|[]]; simpl; auto.
   - vm_compute. reflexivity.
 Qed.
+
+(* ------------------------------------------------------------------ passive simulator, lazy post-selection *)
+(* what is right: _set_postselection maps the register positions it is handed back to the
+   state's own labels (for every state, label list and counts) *)
+Theorem C03_passive_set_postselection_records_labels : forall st L counts,
+  incl L (lazy_active st) -> length counts = length L ->
+  map fst (ls_posts (set_postselection st (remap_modes (lazy_active st) L) counts)) = post_modes st ++ L.
+Proof. exact set_postselection_records_labels. Qed.
+Print Assumptions C03_passive_set_postselection_records_labels.
+
+(* the open finding C03:passive:mid-circuit-measurement-exact-weights on the faithful model
+   (finite witnesses): get_marginal_fock_probabilities reads the positions as labels and returns
+   probabilities joint with the earlier outcomes, which the executor multiplies again -- the
+   weights do not sum to 1 and an outcome of joint probability 0 gets a non-zero weight ... *)
+Theorem C03_passive_mid_circuit_exact_weights_refuted :
+  exists dist d Ls,
+    (fold_right (fun vw acc => snd vw + acc) 0 dist == 1)%Q /\
+    match lazy_exec dist Ls (lazy_initial d 4) with
+    | LErr => False
+    | LOk bs =>
+        ~ (fold_right (fun b acc => lb_freq b + acc) 0 bs == 1)%Q /\
+        exists b, In b bs /\ ~ (lb_freq b == 0)%Q /\ (spec_weight dist Ls (lb_out b) == 0)%Q
+    end.
+Proof. exact passive_mid_circuit_exact_weights_refuted. Qed.
+Print Assumptions C03_passive_mid_circuit_exact_weights_refuted.
+
+(* ... and a valid second partial measurement raises *)
+Theorem C03_passive_mid_circuit_spurious_raise_refuted :
+  exists dist d Ls, lazy_exec dist Ls (lazy_initial d 4) = LErr /\
+                    NoDup (concat Ls) /\ Forall (fun m => (m < d)%nat) (concat Ls).
+Proof. exact passive_mid_circuit_spurious_raise_refuted. Qed.
+Print Assumptions C03_passive_mid_circuit_spurious_raise_refuted.
+
+Example C03_passive_witness_values :
+  lazy_weights (lazy_exec w_dist [[0%nat]; [2%nat]] (lazy_initial 3 4))
+  = Some [([1;0]%nat, (1#4)%Q); ([0;1]%nat, (1#4)%Q)].
+Proof. exact passive_witness_values. Qed.
 
 (* refuted on the tree as found (finite witnesses) *)
 Theorem C03_get_counts_overwrite_refuted :
